@@ -1,13 +1,107 @@
-// Package c10 is the correspondence harness for property C10 (placeholder).
 package c10
 
 import (
-	"errors"
+	"encoding/json"
+	"fmt"
+	"time"
 
 	"verifh/internal/hx"
 	"verifh/internal/lineio"
 )
 
+// RunOne executes one decoded case in this process.
+func RunOne(raw json.RawMessage) (interface{}, interface{}, error) {
+	var k struct {
+		Kind string `json:"kind"`
+	}
+	if err := json.Unmarshal(raw, &k); err != nil {
+		return nil, nil, err
+	}
+	switch k.Kind {
+	case "traffic":
+		var in TrafficIn
+		if err := json.Unmarshal(raw, &in); err != nil {
+			return nil, nil, err
+		}
+		return in, RunTraffic(in), nil
+	case "script":
+		var in ScriptIn
+		if err := json.Unmarshal(raw, &in); err != nil {
+			return nil, nil, err
+		}
+		return in, RunScript(in), nil
+	}
+	return nil, nil, fmt.Errorf("unknown case kind %q", k.Kind)
+}
+
+// Worker is the body of a re-exec'd worker: run the jobs of the file in-process.
+func Worker(o *hx.Opts, w *lineio.Writer, extra func(json.RawMessage) (interface{}, interface{}, error)) error {
+	cases, err := hx.ReplayCases(o.Replay)
+	if err != nil {
+		return err
+	}
+	for _, c := range cases {
+		in, obs, err := RunOne(c.In)
+		if err != nil && extra != nil {
+			in, obs, err = extra(c.In)
+		}
+		if err != nil {
+			return err
+		}
+		w.Put(&lineio.Case{ID: c.ID, In: in, Obs: obs})
+	}
+	return nil
+}
+
+// ReplayJobs turns a replay file into jobs (re-executed against the current code).
+func ReplayJobs(path string) ([]Job, error) {
+	cases, err := hx.ReplayCases(path)
+	if err != nil {
+		return nil, err
+	}
+	var jobs []Job
+	for _, c := range cases {
+		jobs = append(jobs, Job{c.ID, c.In})
+	}
+	return jobs, nil
+}
+
 func Run(o *hx.Opts, w *lineio.Writer) error {
-	return errors.New("C10 harness not implemented")
+	if IsWorker() {
+		return Worker(o, w, nil)
+	}
+	if o.Replay != "" {
+		jobs, err := ReplayJobs(o.Replay)
+		if err != nil {
+			return err
+		}
+		return RunIsolated("C10", o, w, jobs, 1, 150*time.Second)
+	}
+	mp := MaxPayloadOrDocumented()
+	var jobs []Job
+	r := o.Rand(10)
+	for i := 0; i < o.N(220, 2500); i++ {
+		jobs = append(jobs, RandomTraffic(r, mp, i))
+	}
+	// sequential scripts on the same model: receive side in detail, boundary and excluded points
+	jobs = append(jobs, ExcludedScripts(mp)...)
+	for i := 0; i < o.N(40, 400); i++ {
+		jobs = append(jobs, RandomScript(r, mp, i))
+	}
+	if err := RunIsolated("C10", o, w, jobs, 25, 40*time.Second); err != nil {
+		return err
+	}
+	// payloads around and above maxPayloadSize: a few, each in its own worker
+	var big []Job
+	nb := 1
+	if o.Thorough() {
+		nb = 3
+	}
+	if o.Budget > 1 {
+		nb = 1
+	}
+	for i := 0; i < nb; i++ {
+		big = append(big, BigTraffic(r, mp, 0, i), BigTraffic(r, mp, 1, i))
+	}
+	return RunIsolated("C10", o, w, big, 1, 150*time.Second)
 }
